@@ -387,6 +387,10 @@ func c17Limits(c *mon.Ctx) {
 				ps.Type = padRunes(200, 2) // 200 code points, 400 bytes
 				also = "+type-over-255-bytes"
 			}
+			if lc.runes > 255 && lc.field != "room_id" && n%3 == 1 && !t.Domainless {
+				ps.RoomID = "!" + padRunes(200, 2) + ":a.example" // 211 code points, 411 bytes
+				also = "+room-id-over-255-bytes"
+			}
 			val := map[string]string{"type": ps.Type, "sender": ps.Sender, "room_id": ps.RoomID}[lc.field]
 			if lc.field == "state_key" {
 				val = *ps.StateKey
@@ -424,7 +428,7 @@ func c17Limits(c *mon.Ctx) {
 				}
 				// on receipt: a raw event with the same field (signature/hash need not be valid for the size rules)
 				base := protoSpec{Type: "m.room.message", Sender: "@alice:a.example", RoomID: ps.RoomID, Content: []byte(`{"body":"x"}`), Depth: 3, Prev: ps.Prev}
-				if lc.field == "room_id" {
+				if lc.field == "room_id" || also == "+room-id-over-255-bytes" {
 					base.RoomID = "!room:a.example"
 				}
 				bev, err := buildEvent(ver, base, id, baseTime)
@@ -434,8 +438,11 @@ func c17Limits(c *mon.Ctx) {
 				}
 				rv := ref.MustParse(bev.JSON())
 				rv.Set(lc.field, ref.S(val))
-				if also != "" {
+				if also == "+type-over-255-bytes" {
 					rv.Set("type", ref.S(ps.Type))
+				}
+				if also == "+room-id-over-255-bytes" {
+					rv.Set("room_id", ref.S(ps.RoomID))
 				}
 				uev, err := impl.NewEventFromUntrustedJSON(gen.Plain().Bytes(rv))
 				got = classify(uev, err)
